@@ -78,6 +78,27 @@ func (c *Ctx) ArgIs(rule, key string, p *Prog, call ssa.Instruction, idx int, wh
 		c.Unk(rule, key, p, call.Pos(), fmt.Sprintf("%s: call has %d arguments, wanted index %d", why, len(args), idx))
 		return false
 	}
+	if args[idx] == nil {
+		// the pinned parameter travels inside a grouping struct argument now
+		if callee := StaticFunc(CallOf(call)); callee != nil {
+			if sp, fidx, name := groupedRole(callee, idx); sp != nil {
+				raw := CallOf(call).Args
+				for k, prm := range callee.Params {
+					if prm == sp && k < len(raw) {
+						got := groupedFieldPath(raw[k], fidx, name)
+						for _, w := range want {
+							if got == w {
+								c.OK(rule, key, p, call.Pos(), why+": "+got+" (inside the grouping argument)")
+								return true
+							}
+						}
+						c.Bad(rule, key, p, call.Pos(), fmt.Sprintf("%s: expected %s, found %s (inside the grouping argument)", why, strings.Join(want, " or "), got))
+						return false
+					}
+				}
+			}
+		}
+	}
 	return c.PathIs(rule, key, p, call.Pos(), args[idx], why, want...)
 }
 
@@ -232,6 +253,14 @@ func LiteralField(alloc ssa.Value, field string) (ssa.Value, bool) {
 			switch x := r.(type) {
 			case *ssa.FieldAddr:
 				if fieldName(x.X.Type(), x.Field) != field {
+					// a grouping field (cfg cookieConfig inside the literal): its fields are the literal's
+					if st := structOf(x.X.Type()); st != nil && x.Field < st.NumFields() && depth < 3 {
+						if ft := st.Field(x.Field).Type(); IsNewType(ft) && structOf(ft) != nil {
+							if _, isPtr := ft.Underlying().(*types.Pointer); !isPtr {
+								scan(x, depth+1)
+							}
+						}
+					}
 					continue
 				}
 				for _, u := range Refs(x) {
@@ -275,9 +304,148 @@ func AllocsOf(fn *ssa.Function, typ string) []*ssa.Alloc {
 func P(fn *ssa.Function, i int) string {
 	prm := ParamAt(fn, i)
 	if prm == nil {
+		// the pinned parameter became a field of a grouping struct parameter (cfg.backendID):
+		// the role reads as that field reads
+		if sp, fidx, name := groupedRole(fn, i); sp != nil {
+			if path := groupedFieldPath(sp, fidx, name); path != "" {
+				return path
+			}
+		}
 		return "param:?"
 	}
 	return "param:" + prm.Name()
+}
+
+// groupedRole: the pinned parameter i of fn no longer exists, but one of fn's parameters is a
+// new struct type with a field of the pinned parameter's name and type.
+func groupedRole(fn *ssa.Function, i int) (*ssa.Parameter, int, string) {
+	if fn == nil {
+		return nil, 0, ""
+	}
+	obj, _ := fn.Object().(*types.Func)
+	if obj == nil || !isModObj(obj) {
+		return nil, 0, ""
+	}
+	pn := pinnedTable()
+	if pn.Pkgs == nil {
+		return nil, 0, ""
+	}
+	pp := pn.Pkgs[Rel(obj.Pkg().Path())]
+	if pp == nil {
+		return nil, 0, ""
+	}
+	fp, ok := pp.Funcs[canonFuncKey(obj)]
+	if !ok || len(fp.PTypes) != len(fp.Params) {
+		return nil, 0, ""
+	}
+	k := i
+	if pinnedRecv, _, _ := recvRoles(obj); pinnedRecv {
+		k = i - 1
+	}
+	if k < 0 || k >= len(fp.Params) {
+		return nil, 0, ""
+	}
+	name, typ := fp.Params[k], fp.PTypes[k]
+	for _, sp := range fn.Params {
+		if !IsNewType(sp.Type()) {
+			continue
+		}
+		st := structOf(sp.Type())
+		if st == nil {
+			continue
+		}
+		for f := 0; f < st.NumFields(); f++ {
+			if st.Field(f).Name() == name && typeStr(st.Field(f).Type()) == typ {
+				return sp, f, name
+			}
+		}
+	}
+	// the values travel in a struct the module already had (fr *ForwardedRequest instead of
+	// fr.BackendID, fr.RequestID, fr.Contents): the field of the pinned parameter's name (letter
+	// case aside) and type, or the only field of its type when that type is not a basic one
+	cur := map[string]bool{}
+	for _, sp := range fn.Params {
+		cur[sp.Name()] = true
+	}
+	if cur[name] {
+		return nil, 0, ""
+	}
+	var hit *ssa.Parameter
+	hf, n := 0, 0
+	for _, sp := range fn.Params {
+		if IsNewType(sp.Type()) || !isModType(sp.Type()) {
+			continue
+		}
+		st := structOf(sp.Type())
+		if st == nil {
+			continue
+		}
+		byName, byType, nt := -1, -1, 0
+		for f := 0; f < st.NumFields(); f++ {
+			if typeStr(st.Field(f).Type()) != typ {
+				continue
+			}
+			nt++
+			byType = f
+			if strings.EqualFold(st.Field(f).Name(), name) {
+				byName = f
+			}
+		}
+		f := byName
+		if f < 0 && nt == 1 && !isBasicTypeStr(typ) {
+			f = byType
+		}
+		if f >= 0 {
+			hit, hf = sp, f
+			n++
+		}
+	}
+	if n == 1 {
+		return hit, hf, name
+	}
+	return nil, 0, ""
+}
+
+func isBasicTypeStr(t string) bool {
+	switch strings.TrimLeft(t, "*[]") {
+	case "string", "int", "int64", "int32", "bool", "byte", "uint", "uint64", "uint32", "float64", "error", "time.Duration":
+		return true
+	}
+	return false
+}
+
+// isModType: t (pointers aside) is a named type of the module under analysis.
+func isModType(t types.Type) bool {
+	for {
+		p, ok := t.Underlying().(*types.Pointer)
+		if !ok {
+			break
+		}
+		t = p.Elem()
+	}
+	n, ok := t.(*types.Named)
+	return ok && n.Obj() != nil && isModObj(n.Obj())
+}
+
+// groupedFieldPath: how field fidx of the grouping value v reads.
+func groupedFieldPath(v ssa.Value, fidx int, name string) string {
+	if !IsNewType(v.Type()) {
+		// a struct the module already had: the role reads as that field of the value
+		st := structOf(v.Type())
+		if st == nil || fidx >= st.NumFields() {
+			return ""
+		}
+		if vp, ok := AccessPath(v); ok {
+			return vp + "." + st.Field(fidx).Name()
+		}
+		return ""
+	}
+	if val := newStructField(v, fidx); val != nil {
+		if vp, ok := AccessPath(val); ok && (strings.HasPrefix(vp, "*global:") || strings.HasPrefix(vp, "**global:") || strings.HasPrefix(vp, "const:")) {
+			return vp
+		}
+	}
+	return "param:" + name
 }
 
 // ThroughClone looks through (*http.Request).Clone / WithContext: the copy
